@@ -411,6 +411,7 @@ type Clause struct {
 type LoopSpec struct {
 	Invariants []Clause
 	Decreases  []Clause
+	Progress   []Clause // ghost counters that strictly increase on every iteration
 }
 
 type SpecFun struct {
@@ -447,8 +448,17 @@ type Contract struct {
 	File       string
 	Line       int
 	Pragmas    []string
+	Likes      []string // templates: contracts whose clauses are copied into this one
+	CallSites  []CallSiteClause
 	Uses       []SCall // lemma / axiom instances to assume
 	Critical   map[int][]Clause
+}
+
+// CallSiteClause: an assertion attached to the k-th call of a callee inside the function under contract.
+type CallSiteClause struct {
+	Callee  string // suffix of the callee key (e.g. "reflect.Select")
+	Ordinal int    // -1: every call
+	Clause  Clause
 }
 
 type SpecFile struct {
@@ -635,9 +645,39 @@ func loadSpecFile(path string, sf *SpecFile) error {
 				ls.Invariants = append(ls.Invariants, c)
 			case "decreases":
 				ls.Decreases = append(ls.Decreases, c)
+			case "progress":
+				ls.Progress = append(ls.Progress, c)
 			default:
 				return fail(fmt.Errorf("unknown loop clause %q", f[1]))
 			}
+		case "like":
+			if cur == nil {
+				return fail(fmt.Errorf("like outside func"))
+			}
+			cur.Likes = append(cur.Likes, rest)
+		case "callsite":
+			// callsite CALLEE K|* [tags] label: expr
+			if cur == nil {
+				return fail(fmt.Errorf("callsite outside func"))
+			}
+			f := strings.Fields(rest)
+			if len(f) < 3 {
+				return fail(fmt.Errorf("callsite CALLEE ORDINAL expr"))
+			}
+			ord := -1
+			if f[1] != "*" {
+				k, err := strconv.Atoi(f[1])
+				if err != nil {
+					return fail(err)
+				}
+				ord = k
+			}
+			body := strings.TrimSpace(strings.TrimPrefix(strings.TrimSpace(strings.TrimPrefix(rest, f[0])), f[1]))
+			c, err := parseClause(body, cur.Props)
+			if err != nil {
+				return fail(err)
+			}
+			cur.CallSites = append(cur.CallSites, CallSiteClause{Callee: f[0], Ordinal: ord, Clause: c})
 		case "critical":
 			if cur == nil {
 				return fail(fmt.Errorf("critical outside func"))
